@@ -5,7 +5,7 @@ import ast
 
 from engine.defuse import value_sources
 from engine.effects import EventSpec
-from engine.flow import dominating_guards, must_pass, path_avoiding, reachable_from_entry
+from engine.flow import dominating_guards, expand_aliases, must_pass, path_avoiding, reachable_from_entry
 from .common import CALLS, call_events
 
 META = {
@@ -28,11 +28,7 @@ META = {
 
 def norm_guard(fn, t, recv_names):
     """normalise a guard expression: the field receiver becomes F, local aliases are expanded"""
-    e = t.ast
-    if isinstance(e, ast.Name):
-        for kind, payload in value_sources(fn, e, t):
-            if kind == "expr" and isinstance(payload, ast.AST):
-                e = payload
+    e = expand_aliases(fn, t.ast, t)
     txt = ast.unparse(e)
     for r in recv_names:
         txt = txt.replace(r + ".", "F.")
@@ -83,7 +79,7 @@ def check(ctx):
             if f2 is not fn:
                 continue
             # the read itself and every test that dominates it / is fed by it
-            out.add(ast.unparse(n.ast).replace(recv + ".", "F."))
+            out.add(ast.unparse(expand_aliases(fn, n.ast, n)).replace(recv + ".", "F."))
             for t, tr in dominating_guards(an, fn, n):
                 txt = norm_guard(fn, t, [recv])
                 if "env" in txt:
@@ -93,7 +89,7 @@ def check(ctx):
     lt_recv = None
     for n in an.cfg(lt).nodes:
         if any(e[0] == "ENV_READ" for e in calls.direct(lt, n)) and n.ast.args:
-            a = n.ast.args[0]
+            a = expand_aliases(lt, n.ast.args[0], n)
             if isinstance(a, ast.Attribute) and isinstance(a.value, ast.Name):
                 lt_recv = a.value.id
     ctx.need(lt_recv is not None, "cannot find the field receiver of the skip guard in load_tree")
